@@ -182,6 +182,7 @@ func init() {
 			}
 			rules.O123f(rc, red)
 			rules.O8f(rc, red, 0)
+			rules.P2(rc, red, 12)
 			rules.LGuards(rc, "C08")
 		},
 	})
@@ -212,6 +213,14 @@ func init() {
 			rules.O8(rc)
 			rules.S9(rc)
 			rules.M2(rc, nil, 40, 900)
+			rules.P2(rc, func(k string) bool {
+				for _, n := range []string{"Slice", "At", "Clone", "Materialize", "SafeT", "T", "Transpose", "Copy", "ToMat64"} {
+					if strings.HasSuffix(k, "."+n) {
+						return true
+					}
+				}
+				return false
+			}, 8)
 		},
 	})
 	register(&Property{
@@ -233,6 +242,7 @@ func init() {
 			oa := rules.O123f(rc, lin)
 			rules.O7(rc, oa)
 			rules.O8f(rc, lin, 0)
+			rules.P2(rc, lin, 15)
 		},
 	})
 	register(&Property{
@@ -245,6 +255,14 @@ func init() {
 			rules.LGuards(rc, "C10")
 			rules.K1w(rc, func(stem string) bool { return strings.Contains(stem, "doViewStack") }, 4)
 			rules.E2(rc, fileFilterName("defaultengine_matop_misc.go", "defaultengine_matop_stack.go", "dense_matop_memmove.go", "array.go", "dense_assign.go"), 5)
+			rules.P2(rc, func(k string) bool {
+				for _, n := range []string{"Concat", "Stack", "Hstack", "Vstack", "Repeat", "RepeatReuse", "StackDense"} {
+					if strings.HasSuffix(k, "."+n) {
+						return true
+					}
+				}
+				return false
+			}, 10)
 			rules.O123f(rc, func(k string) bool {
 				for _, n := range []string{"Concat", "Stack", "Hstack", "Vstack", "Repeat", "RepeatReuse", "StackDense"} {
 					if strings.HasSuffix(k, "."+n) {
@@ -263,6 +281,14 @@ func init() {
 		Run: func(rc *rules.RC) {
 			rules.F1(rc)
 			rules.F2(rc)
+			rules.P2(rc, func(k string) bool {
+				for _, n := range []string{"WriteNpy", "WriteCSV", "GobEncode", "PBEncode", "FBEncode"} {
+					if strings.HasSuffix(k, "."+n) {
+						return true
+					}
+				}
+				return false
+			}, 4)
 			rules.LGuards(rc, "C14")
 			rules.K3(rc, fileFilter("dense_io.go"), 2, 25)
 		},
@@ -305,6 +331,7 @@ func init() {
 		Assume: []string{"locks are taken on package-level mutexes by direct calls (the repo's only idiom); interprocedural lock holding is not modelled"},
 		Run: func(rc *rules.RC) {
 			rules.P4(rc)
+			rules.P2(rc, nil, 70)
 			rules.O6(rc)
 			oa := rules.NewOAnalysis(rc.P)
 			rules.O7(rc, oa)
